@@ -50,6 +50,11 @@ Eight correspondence streams, each run on the REAL classes (`BS`, `PS`, `WP`, `H
   symbolic, `.U`, `definition()` against the model's matrix.
 * pserr — `PS(phi, max_error != 0)`: stored amplitude against the model's wrap into [0, pi]; every draw of the numeric
   and symbolic matrix is a unit phase within `max_error` of `phi` (the draw itself is external).
+* refl — `BS.theta_to_r`, `BS.r_to_theta`, `BS.reflectivity` (`Model/C14Refl.lean`): theta given as a number, a fixed /
+  free / valued parameter or the Expression `2*t`, at exact half-angle points shifted by whole spans; kind (number or
+  Expression), free symbols and value of what is returned before and after the values are set, against the model
+  (exact `cos²(θ/2)`, exact squared moduli, trees evaluated with the supplied `math.*` table); direct oracle on the
+  real code: reflectivity = squared moduli of its own numeric matrix, `BS(r_to_theta(r))` has `|U00|² = r`.
 
 Direct oracles (independent of the Lean driver) used to classify a disagreement: the documentation's
 formulas written in numpy/cmath, `lo <= stored <= hi and stored ≡ requested (mod span)`, `U e_k = e_{l[k]}`; for Expression objects that were not given a
@@ -66,6 +71,7 @@ import json
 import math
 import multiprocessing as mp
 import os
+import random
 from fractions import Fraction
 
 import numpy as np
@@ -284,6 +290,11 @@ def observe_wrap(case):
     import perceval as pcvl
     from perceval.components import BS, PS, WP, PR
     lo, hi, per, v, entry = case["lo"], case["hi"], case["periodic"], case["v"], case["entry"]
+    # the TYPE of the value handed in (the model sees the number only): Python int, numpy float64, float
+    if case.get("vtype") == "int":
+        v = int(v)
+    elif case.get("vtype") == "np64":
+        v = np.float64(v)
     try:
         if entry == "check":
             r = pcvl.Parameter._check_value(v, lo, hi, per)
@@ -592,7 +603,8 @@ def observe_expr(case):
 
 OBSERVERS = {"matrix": observe_matrix, "wrap": observe_wrap, "perm": observe_perm, "expr": observe_expr,
              "life": lambda case: observe_life(case), "xsess": lambda case: observe_xsess_bounded(case),
-             "pbs": lambda case: observe_pbs(case), "pserr": lambda case: observe_pserr(case)}
+             "pbs": lambda case: observe_pbs(case), "pserr": lambda case: observe_pserr(case),
+             "refl": lambda case: observe_refl(case)}
 
 
 def observe(item):
@@ -657,6 +669,21 @@ def exact_multiple_cases():
 
 
 def gen_wrap_case(rng):
+    case = gen_wrap_case_float(rng)
+    # the value type is drawn from a generator derived from the case itself (a function of `rng`'s draws), so that
+    # the sequence of `rng` - hence every later stream - is the one the earlier rounds were validated with
+    sub = random.Random(repr((case["v"], case["entry"])))
+    u = sub.random()
+    if u < 0.15:
+        case["vtype"] = "np64"
+    elif u < 0.30:       # an integer (exactly representable: the float path computes the same numbers)
+        span = (case["hi"] - case["lo"]) if case["lo"] is not None and case["hi"] is not None else 1.0
+        case["v"] = float(sub.randint(-40, 40) if span >= 1 else sub.randint(-3, 3))
+        case["vtype"] = "int"
+    return case
+
+
+def gen_wrap_case_float(rng):
     r = rng.random()
     if r < 0.45:        # a declared interval, random far-out value, through any entry point
         name = rng.choice(list(INTERVALS))
@@ -2886,6 +2913,356 @@ def gen_pserr_case(rng):
 
 
 # ------------------------------------------------------------------------------------------------
+# stream "refl": BS.theta_to_r / BS.r_to_theta / BS.reflectivity (Model/C14Refl.lean)
+# ------------------------------------------------------------------------------------------------
+REFL_PHASES = ("phi_tl", "phi_bl", "phi_tr", "phi_br")
+REFL_RASTS = {
+    "var": {"v": "a"},
+    "mul": {"op": "mul", "a": {"v": "a"}, "b": {"v": "b"}},
+    "half": {"op": "mul", "a": {"c": "1/2"}, "b": {"v": "a"}},
+    "sub": {"op": "sub", "a": {"v": "a"}, "b": {"v": "b"}},
+}
+
+
+def refl_theta(case, which=0):
+    """the requested theta: 2*atan2(s, c) of the exact half-angle point, brought into [0, 4pi], plus k spans"""
+    h = case["h"] if which == 0 else case["h2"]
+    base = 2 * math.atan2(float(Fraction(h["s"])), float(Fraction(h["c"])))
+    if base < 0:
+        base += FOUR_PI
+    return base + (case["k"] if which == 0 else case["k2"]) * FOUR_PI
+
+
+def refl_phase(case, slot):
+    cs = case["phases"][slot]
+    return math.atan2(float(Fraction(cs[1])), float(Fraction(cs[0])))
+
+
+def refl_describe(x):
+    """a float, or an Expression object (free symbols, current value or the exception class of float())"""
+    from perceval.utils import Expression
+    if isinstance(x, Expression):
+        d = {"kind": "expr", "free": sorted(str(q) for q in x._symbol.free_symbols),
+             "params": sorted(q.name for q in x._params)}
+        try:
+            d["val"] = float(x)
+        except Exception as e:  # noqa: BLE001
+            d["exc"] = type(e).__name__
+        return d
+    if isinstance(x, (int, float)):
+        return {"kind": "num", "val": float(x)}
+    return {"kind": type(x).__name__}
+
+
+def refl_mods(bs):
+    u = np.array(bs.compute_unitary(use_symbolic=False), dtype=complex)
+    return [[abs(u[i, j]) ** 2 for j in range(2)] for i in range(2)]
+
+
+def observe_refl(case):
+    import perceval as pcvl
+    from perceval.components import BS
+    out = {}
+
+    def guarded(f):
+        try:
+            return f()
+        except Exception as e:  # noqa: BLE001
+            return {"kind": "raise", "exc": type(e).__name__}
+
+    try:
+        th, th2 = refl_theta(case), refl_theta(case, 1)
+        ph = {s: refl_phase(case, s) for s in REFL_PHASES}
+        ctor = {"Rx": BS.Rx, "Ry": BS.Ry, "H": BS.H}[case["conv"]]
+        how = case["how"]
+        p = None
+        if how == "num":
+            bs = ctor(theta=th, **ph)
+        elif how == "fixed":
+            p = pcvl.Parameter("t", th)
+            bs = ctor(theta=p, **ph)
+        elif how in ("free", "valued"):
+            p = pcvl.P("t")
+            bs = ctor(theta=p, **ph)
+            if how == "valued":
+                p.set_value(th)
+        else:   # "expr": theta = 2*t, an Expression object (`defined` as soon as t has a value)
+            p = pcvl.P("t")
+            bs = ctor(theta=2 * p, **ph)
+            if case["preset"]:
+                p.set_value(th / 2)
+        first = bs.reflectivity                       # taken BEFORE the values below are set
+        out["first_kind"] = refl_describe(first)["kind"]
+        steps = []
+        for i, v in enumerate((th, th2)):
+            if how in ("free", "valued"):
+                p.set_value(v)
+            elif how == "expr":
+                p.set_value(v / 2)
+            elif i == 1:
+                break
+            steps.append({"first": refl_describe(first), "now": refl_describe(bs.reflectivity), "mods": refl_mods(bs),
+                          "slot": float(bs.param("theta"))})
+        out["steps"] = steps
+        out["t2r"] = guarded(lambda: refl_describe(BS.theta_to_r(th)))
+        r = case["r"]
+        out["r2t"] = guarded(lambda: refl_describe(BS.r_to_theta(r)))
+        if "val" in out["r2t"]:
+            b2 = ctor(theta=out["r2t"]["val"], **ph)
+            out["r2t_mods"] = refl_mods(b2)
+            out["r2t_back"] = float(b2.reflectivity)
+            out["r2t_stored"] = float(b2.param("theta"))
+        # r_to_theta of a Parameter / Expression
+        P = {n: pcvl.P(n) for n in sorted(xast_vars(case["rast"]))}
+        if case["rpreset"]:
+            for n, v in case["renv"].items():
+                P[n].set_value(v)
+        e = BS.r_to_theta(build_expr(case["rast"], P, {}))
+        for n, v in case["renv"].items():
+            P[n].set_value(v)
+        out["r2t_expr"] = refl_describe(e)
+        if "val" in out["r2t_expr"]:
+            b3 = ctor(theta=e, **ph)
+            out["r2t_expr_mods"] = refl_mods(b3)
+            back = b3.reflectivity
+            out["r2t_expr_back"] = refl_describe(back)
+    except Exception as e:  # noqa: BLE001
+        out["err"] = type(e).__name__ + ": " + str(e)[:150]
+    return out
+
+
+def refl_items(case):
+    """model requests of one case: [mod, mod2?, t2r per step..., t2r num, r2t num, r2t expr, back]"""
+    th, th2 = refl_theta(case), refl_theta(case, 1)
+    ang = lambda cs: [str(cs[0]), str(cs[1])]  # noqa: E731
+    items, index = [], {}
+
+    def add(key, it):
+        index[key] = len(items)
+        items.append(it)
+
+    how = case["how"]
+    for i, h in enumerate((case["h"], case["h2"])):
+        add(f"mod{i}", {"f": "mod", "conv": case["conv"], "h": [h["c"], h["s"]],
+                        **{s[4:]: ang(case["phases"][s]) for s in REFL_PHASES}})
+    tree = {"v": "t"} if how != "expr" else {"op": "mul", "a": {"c": "2"}, "b": {"v": "t"}}
+    # the object `first` taken before any value was set
+    first_own = th if how in ("fixed", "valued") or (how == "expr" and case["preset"]) else None
+    for i, v in enumerate((th, th2)):
+        env = [["t", core.rat(v if how != "expr" else v / 2)]]
+        if how == "num":
+            add(f"first{i}", {"f": "t2r", "num": core.rat(th), "env": []})
+        else:
+            add(f"first{i}", {"f": "t2r", "e": tree, "own": None if first_own is None else core.rat(first_own), "env": env})
+        own_now = v if how in ("free", "valued", "expr") else th
+        if how == "num":
+            add(f"now{i}", {"f": "t2r", "num": core.rat(th), "env": []})
+        else:
+            add(f"now{i}", {"f": "t2r", "e": tree, "own": core.rat(own_now) if own_now is not None else None, "env": env})
+    add("t2r", {"f": "t2r", "num": core.rat(th), "env": []})
+    add("r2t", {"f": "r2t", "num": core.rat(float(case["r"])), "env": []})
+    renv = [[n, core.rat(float(v))] for n, v in case["renv"].items()]
+    add("r2t_expr", {"f": "r2t", "e": xast_lean(case["rast"]), "own": None, "env": renv})
+    return items, index
+
+
+def refl_ask(lean, cases):
+    """ask the model, supplying the math.* values it asks for until nothing is missing"""
+    tables = [[] for _ in cases]
+    reps = [None] * len(cases)
+    todo = list(range(len(cases)))
+    for _round in range(8):
+        if not todo:
+            break
+        got = lean.ask_many([{"op": "refl", "pi": PI_RAT, "table": tables[i], "items": refl_items(cases[i])[0]}
+                             for i in todo])
+        nxt = []
+        for i, rep in zip(todo, got):
+            reps[i] = rep
+            miss = rep.get("missing") or []
+            if "err" not in rep and miss:
+                for f, arg in miss:
+                    v = fn_value(f, float(Fraction(arg)))
+                    tables[i].append([f, arg, None if v is None else core.rat(v)])
+                nxt.append(i)
+        todo = nxt
+    for i in todo:
+        reps[i] = {"err": "function table did not converge"}
+    return reps
+
+
+def refl_cmp(fails, label, got, want, what):
+    """code's description of a result (refl_describe) against the model's reply item"""
+    mkind = "num" if "num" in want else "expr"
+    if got.get("kind") == "raise":
+        if mkind == "num" and want["num"] is None and got["exc"] == "ValueError":
+            return
+        fails.append(("broken", f"refl-{label}:raises", f"{what}: raises {got['exc']}, model {want}"))
+        return
+    if got.get("kind") != mkind:
+        fails.append(("broken", f"refl-{label}:kind", f"{what}: the code returns a {got.get('kind')}, the model a {mkind}"))
+        return
+    mval = want["num"] if mkind == "num" else want["expr"]
+    if mkind == "expr" and got["free"] != sorted(want["free"]):
+        fails.append(("broken", f"refl-{label}:free-symbols", f"{what}: free symbols {got['free']}, model {want['free']}"))
+    if mval is None:
+        if "val" in got or got.get("exc") not in ("TypeError", "ValueError"):
+            fails.append(("broken", f"refl-{label}:defined", f"{what}: {got}, model: not a real number"))
+    elif "val" not in got:
+        fails.append(("broken", f"refl-{label}:undefined", f"{what}: float() raises {got.get('exc')}, model {mval}"))
+    elif not x_num_eq(got["val"], mval, tol=1e-9):
+        fails.append(("broken", f"refl-{label}:value", f"{what}: {got['val']!r}, model {float(Fraction(mval))!r}"))
+
+
+def judge_refl(case, obs, reps):
+    rep = reps[0]
+    if "err" in rep:
+        return [("broken", "lean-driver", f"refl request rejected: {rep}")]
+    if "err" in obs:
+        return [("broken", "refl-raises", f"BS.{case['conv']} reflectivity helpers ({case['how']}): {obs['err']}")]
+    out = rep["out"]
+    _, index = refl_items(case)
+    M = lambda k: out[index[k]]  # noqa: E731
+    fails = []
+    th = [refl_theta(case), refl_theta(case, 1)]
+    what0 = f"BS.{case['conv']}(theta: {case['how']})"
+    want_first = "expr" if case["how"] == "free" or (case["how"] == "expr" and not case["preset"]) else "num"
+    if obs["first_kind"] != want_first:
+        fails.append(("broken", "refl-first:kind", f"{what0}.reflectivity is a {obs['first_kind']}, model: {want_first}"))
+    for i, st in enumerate(obs["steps"]):
+        what = f"{what0} at theta = {th[i]!r}"
+        tol = 1e-9 + 1e-15 * abs(th[i])
+        # direct oracle on the real code: reflectivity = |U00|^2 = |U11|^2 = 1 - |U01|^2 = 1 - |U10|^2 of ITS OWN matrix
+        now = st["now"]
+        if "val" in now:
+            m = st["mods"]
+            if max(abs(now["val"] - m[0][0]), abs(now["val"] - m[1][1]), abs(1 - now["val"] - m[0][1]),
+                   abs(1 - now["val"] - m[1][0])) > tol:
+                fails.append(("violation", "refl-not-modulus", f"{what}: reflectivity {now['val']!r} but the numeric matrix "
+                              f"has squared moduli {m}"))
+        else:
+            fails.append(("violation", "refl-undefined", f"{what}: reflectivity has no value ({now})"))
+        # an Expression handed out earlier follows the current values
+        if st["first"]["kind"] == "expr":
+            exact = math.cos(th[i] / 2) ** 2
+            if "val" not in st["first"] or abs(st["first"]["val"] - exact) > tol:
+                fails.append(("violation", "refl-expression-not-live", f"{what}: the Expression returned by reflectivity "
+                              f"before the value was set reads {st['first']}, cos(theta/2)^2 = {exact!r}"))
+        # model
+        mm = M(f"mod{i}")
+        for a in range(2):
+            for b in range(2):
+                if not x_num_eq(st["mods"][a][b], mm["mod"][a][b], tol=1e-9):
+                    fails.append(("broken", "refl-mods", f"{what}: |U[{a}][{b}]|^2 = {st['mods'][a][b]!r}, model "
+                                  f"{mm['mod'][a][b]}"))
+        if "val" in now and not x_num_eq(now["val"], mm["r"], tol=1e-9):
+            fails.append(("broken", "refl-exact", f"{what}: reflectivity {now['val']!r}, exact cos^2(theta/2) = {mm['r']}"))
+        refl_cmp(fails, "now", now, M(f"now{i}"), what + " (reflectivity)")
+        refl_cmp(fails, "first", st["first"], M(f"first{i}"), what + " (reflectivity taken before the values were set)")
+    refl_cmp(fails, "t2r", obs["t2r"], M("t2r"), f"BS.theta_to_r({th[0]!r})")
+    r = case["r"]
+    refl_cmp(fails, "r2t", obs["r2t"], M("r2t"), f"BS.r_to_theta({r!r})")
+    if 0 <= r <= 1:
+        if "val" not in obs["r2t"]:
+            fails.append(("violation", "rtheta-raises", f"BS.r_to_theta({r!r}) with r in [0, 1]: {obs['r2t']}"))
+        else:
+            t = obs["r2t"]["val"]
+            if not (-1e-12 <= t <= PI + 1e-12) or abs(obs["r2t_stored"] - t) > 1e-12:
+                fails.append(("violation", "rtheta-range", f"BS.r_to_theta({r!r}) = {t!r}, stored {obs['r2t_stored']!r}: "
+                              "not an angle of [0, pi] stored as it is"))
+            if abs(obs["r2t_mods"][0][0] - r) > 1e-9 or abs(obs["r2t_back"] - r) > 1e-9:
+                fails.append(("violation", "rtheta-not-reflectivity", f"BS.{case['conv']}(BS.r_to_theta({r!r})): |U00|^2 = "
+                              f"{obs['r2t_mods'][0][0]!r}, reflectivity {obs['r2t_back']!r}"))
+    elif "val" in obs["r2t"]:
+        fails.append(("broken", "rtheta-outside-accepted", f"BS.r_to_theta({r!r}) = {obs['r2t']['val']!r}"))
+    rv = eval_refl_rast(case)
+    what = f"BS.r_to_theta({xast_text(case['rast'])}) at {case['renv']}"
+    # exactly on (or within 1e-6 of) an edge of the real domain of sqrt / acos, an argument that is not a bare
+    # parameter is not compared: sympy normalises the text (sqrt(0.5*a) -> 0.707106781186548*sqrt(a)) and its own
+    # rounding decides on which side of 1 the argument of acos falls (BS.r_to_theta(0.5*a) at a = 2.0: TypeError)
+    edge = min(abs(rv), abs(rv - 1)) < 1e-6 and "v" not in case["rast"]
+    if edge:
+        if obs["r2t_expr"].get("kind") != "expr":
+            fails.append(("broken", "refl-r2t-expr:kind", f"{what}: {obs['r2t_expr']}"))
+        return fails
+    refl_cmp(fails, "r2t-expr", obs["r2t_expr"], M("r2t_expr"), what)
+    if obs["r2t_expr"].get("kind") == "expr" and 0 <= rv <= 1:
+        if "val" not in obs["r2t_expr"]:
+            fails.append(("violation", "rtheta-expression-undefined", f"{what}: {obs['r2t_expr']}"))
+        else:
+            back = obs["r2t_expr_back"]
+            if abs(obs["r2t_expr_mods"][0][0] - rv) > 1e-9 or "val" not in back or abs(back["val"] - rv) > 1e-9:
+                fails.append(("violation", "rtheta-expression-not-reflectivity", f"BS.{case['conv']}(theta = {what}): "
+                              f"|U00|^2 = {obs['r2t_expr_mods'][0][0]!r}, reflectivity {back}, r = {rv!r}"))
+    return fails
+
+
+def eval_refl_rast(case):
+    a, env = case["rast"], case["renv"]
+    if "v" in a:
+        return env[a["v"]]
+    x = env[a["a"]["v"]] if "v" in a["a"] else float(Fraction(a["a"]["c"]))
+    y = env[a["b"]["v"]]
+    return {"mul": x * y, "sub": x - y}[a["op"]]
+
+
+def refl_r(rng):
+    u = rng.random()
+    if u < 0.2:
+        return rng.choice([0.0, 1.0, 0.25, 0.5, 1 / 3, 0.75, 1, 0])
+    if u < 0.4:
+        cf, _ = core.rational_cs(rng)
+        return float(cf * cf)
+    if u < 0.85:
+        return rng.uniform(0.001, 0.999)
+    return rng.choice([rng.uniform(1.001, 1.5), rng.uniform(-0.5, -0.001), 2.0, -1.0])
+
+
+def gen_refl_case(rng, conv=None, how=None):
+    def half():
+        if rng.random() < 0.12:
+            c, s = rng.choice(AXIS)
+        else:
+            cf, sf = core.rational_cs(rng)
+            c, s = str(cf), str(sf)
+        return {"c": c, "s": s}
+
+    def phase():
+        if rng.random() < 0.3:
+            return list(rng.choice(AXIS))
+        cf, sf = core.rational_cs(rng)
+        return [str(cf), str(sf)]
+
+    form = rng.choice(sorted(REFL_RASTS))
+    r = float(refl_r(rng))
+    if form == "var":
+        renv = {"a": r}
+    elif form == "half":
+        renv = {"a": 2 * r}
+    elif form == "mul":
+        b = rng.choice([1.0, 0.5, 2.0, rng.uniform(0.5, 1.5)])
+        renv = {"a": r / b, "b": b}
+    else:
+        b = rng.choice([0.0, 0.25, rng.uniform(0, 1)])
+        renv = {"a": r + b, "b": b}
+    case = {"conv": conv or rng.choice(["Rx", "Ry", "H"]), "how": how or rng.choice(["num", "fixed", "free", "valued", "expr"]),
+            "h": half(), "k": gen_k(rng), "h2": half(), "k2": gen_k(rng), "preset": rng.random() < 0.5,
+            "phases": {s: phase() for s in REFL_PHASES}, "r": refl_r(rng), "rast": REFL_RASTS[form], "renv": renv,
+            "rpreset": rng.random() < 0.5}
+    # the argument of sqrt / acos must not sit within 1e-6 of an edge of the real domain unless it is exactly on it
+    rv = eval_refl_rast(case)
+    if (0 < abs(rv) < 1e-6) or (0 < abs(rv - 1) < 1e-6):
+        case["renv"] = {"a": 0.5, "b": 0.25} if form in ("mul", "sub") else {"a": 0.5}
+    return case
+
+
+def refl_sweep_cases():
+    rng = random.Random(1414)
+    return [gen_refl_case(rng, conv, how) for conv in ("Rx", "Ry", "H") for how in ("num", "fixed", "free", "valued", "expr")
+            for _ in range(2)]
+
+
+# ------------------------------------------------------------------------------------------------
 # one case end-to-end (used by replay, corpus, shrinking)
 # ------------------------------------------------------------------------------------------------
 def lean_reqs(stream, case, obs):
@@ -2901,8 +3278,8 @@ def lean_reqs(stream, case, obs):
         return [{"op": "pbs"}], None
     if stream == "pserr":
         return [wrap_req(0.0, PI, True, case["m"]), wrap_req(0.0, TWO_PI, True, case["phi"])], None
-    if stream == "xsess":
-        return [], None         # (asked in rounds: `xsess_ask`)
+    if stream in ("xsess", "refl"):
+        return [], None         # (asked in rounds: `xsess_ask` / `refl_ask`)
     if obs.get("degenerate") or "err" in obs:
         return [{"op": "perm", "l": [0]}], []
     return expr_lean_reqs(case, obs)
@@ -2925,6 +3302,8 @@ def judge(stream, case, obs, reps, index=None):
         return judge_pbs(case, obs, reps)
     if stream == "pserr":
         return judge_pserr(case, obs, reps)
+    if stream == "refl":
+        return judge_refl(case, obs, reps)
     return judge_expr(case, obs, reps, index)
 
 
@@ -2932,6 +3311,8 @@ def run_one(chk, stream, case):
     obs = observe((stream, case))
     if stream == "xsess":
         return judge(stream, case, obs, xsess_ask(chk.lean, [case]))
+    if stream == "refl":
+        return judge(stream, case, obs, refl_ask(chk.lean, [case]))
     reqs, index = lean_reqs(stream, case, obs)
     reps = chk.lean.ask_many(reqs)
     return judge(stream, case, obs, reps, index)
@@ -3020,6 +3401,26 @@ def shrink_candidates(stream, case):
             c = copy.deepcopy(case)
             c["deep"] = False
             yield c
+    elif stream == "refl":
+        for key in ("k", "k2"):
+            if case[key] != 0:
+                c = copy.deepcopy(case)
+                c[key] = 0
+                yield c
+        for sl in REFL_PHASES:
+            if case["phases"][sl] != ["1", "0"]:
+                c = copy.deepcopy(case)
+                c["phases"][sl] = ["1", "0"]
+                yield c
+        if case["rast"] != REFL_RASTS["var"]:
+            c = copy.deepcopy(case)
+            c["rast"], c["renv"] = REFL_RASTS["var"], {"a": 0.25}
+            yield c
+        for key in ("preset", "rpreset"):
+            if case[key]:
+                c = copy.deepcopy(case)
+                c[key] = False
+                yield c
     elif stream == "expr":
         for i in range(len(case["hist"])):
             c = copy.deepcopy(case)
@@ -3140,6 +3541,9 @@ def record_case(chk, stream, case, obs):
     elif stream == "wrap":
         chk.count("wrap_entry", case["entry"])
         chk.count("wrap_kind", case["tag"])
+        chk.count("wrap_value_type", case.get("vtype", "float"))
+        if case.get("vtype"):
+            chk.branch("wrap-value:" + case["vtype"])
         if case["tag"] == "exact-multiple":
             chk.branch("exact-multiple")
         if "err" in obs and not case["periodic"]:
@@ -3167,6 +3571,25 @@ def record_case(chk, stream, case, obs):
         if case["m"] > PI:
             chk.branch("pserr:amplitude-wrapped")
         chk.case(("N", case["phi"], case["m"], case["mhow"]), case["m"] > 0, None)
+    elif stream == "refl":
+        chk.branch("refl:" + case["how"])
+        chk.branch("refl:" + case["conv"])
+        if case["k"] != 0 or case["k2"] != 0:
+            chk.branch("refl:theta-wrapped")
+        if not 0 <= case["r"] <= 1:
+            chk.branch("refl:r-outside")
+        rv = eval_refl_rast(case)
+        if min(abs(rv), abs(rv - 1)) < 1e-6 and "v" not in case["rast"]:
+            chk.count("refl_not_compared", "r_to_theta(expression) on an edge of the domain of sqrt/acos")
+        else:
+            chk.branch("refl:rexpr-" + ("inside" if 0 <= rv <= 1 else "notreal"))
+        if obs.get("first_kind") == "expr":
+            chk.branch("refl:expression-returned")
+        if case["how"] == "expr" and case["preset"]:
+            chk.branch("refl:expression-of-valued-parameter")
+        chk.count("refl_how", case["how"])
+        chk.case(("R", json.dumps(case, sort_keys=True)), case["how"] != "num" or case["k"] != 0,
+                 _sample(chk, stream, {"stream": "refl", "conv": case["conv"], "how": case["how"], "r": case["r"]}))
     elif stream == "xsess":
         record_xsess(chk, case, obs)
     elif stream == "life":
@@ -3381,7 +3804,7 @@ def process(chk, pool, stream, cases, seen_sigs):
         reqs_all.extend(reqs)
         indexes.append(index)
     reps_all = chk.lean.ask_many(reqs_all)
-    xreps = xsess_ask(chk.lean, cases) if stream == "xsess" else None
+    xreps = xsess_ask(chk.lean, cases) if stream == "xsess" else refl_ask(chk.lean, cases) if stream == "refl" else None
     for ci, (case, obs, (a, b), index) in enumerate(zip(cases, obs_all, spans, indexes)):
         record_case(chk, stream, case, obs)
         fails = judge(stream, case, obs, [xreps[ci]] if xreps is not None else reps_all[a:b], index)
@@ -3415,7 +3838,9 @@ def setup(chk):
                 "an expression of nesting >= 2 with >= 2 set_value calls; life stream: the whole history of calls, "
                 "non-trivial = >= 4 operations with at least one component built; xsess stream: the whole history, "
                 "non-trivial = at least one Expression object and >= 2 value-setting calls; pserr stream: (phi, "
-                "max_error, how the amplitude is given), non-trivial = amplitude > 0")
+                "max_error, how the amplitude is given), non-trivial = amplitude > 0; refl stream: the whole case "
+                "(convention, how theta is given, half-angle points, shifts, phases, r, argument of r_to_theta), "
+                "non-trivial = theta not a plain in-range number")
     chk.assumptions = [
         "math.cos/math.sin/cmath.exp and sympy's numeric evaluation are trusted to 1e-12 (external numerics)",
         "PS.max_error = 0 in every stream but pserr; there the random draw is external: only 'unit phase within "
@@ -3438,6 +3863,9 @@ def setup(chk):
         "operation replaced by its absolute version (bounds the float rounding error); ill-conditioned "
         "divisors (|b| < 1e-3 * S(b)) and division by zero are not compared",
         "angles up to +-1000 periods (|v| < 1.3e4): beyond ~1e6 periods the float wrap itself loses the angle",
+        "refl stream: math.cos/sqrt/acos are external (values handed to the model on request); r_to_theta of an "
+        "argument that is not a bare parameter is not compared within 1e-6 of r = 0 or r = 1 (sympy's normalisation "
+        "of the text decides on which side of the domain edge the argument of acos falls)",
     ]
     chk.required_branches = ["Rx", "Ry", "H", "PS", "WP", "HWP", "QWP", "PR", "const", "named", "named2", "force",
                              "fixedP", "preset", "no-wrap", "wrap-above", "wrap-below", "far-out", "exact-multiple",
@@ -3463,7 +3891,11 @@ def setup(chk):
                                  "xexpr-compose-after-override", "xexpr-deep", "xexpr-override",
                                  "xexpr-override-via-assign", "xexpr-override-wrapped", "xexpr-fix",
                                  "xexpr-reset-restores", "xexpr-undefined", "xexpr-notreal", "xexpr-shared-object",
-                                 "xexpr-shared-across-components"]
+                                 "xexpr-shared-across-components"] + [
+                                 "refl:" + x for x in ("num", "fixed", "free", "valued", "expr", "Rx", "Ry", "H",
+                                                        "theta-wrapped", "r-outside", "rexpr-inside", "rexpr-notreal",
+                                                        "expression-returned", "expression-of-valued-parameter")] + [
+                                 "wrap-value:int", "wrap-value:np64"]
 
 
 def run(chk: core.Check):
@@ -3513,6 +3945,9 @@ def run(chk: core.Check):
         process(chk, pool, "pserr", [gen_pserr_case(rng) for _ in range(chk.pick(60, 1000))], seen)
         process(chk, pool, "xsess", xsess_sweep_cases(), seen)
         process(chk, pool, "xsess", [gen_xsess_case(rng, deep=(i % 6 == 0)) for i in range(chk.pick(200, 3000))], seen)
+        # reflectivity helpers (last: the draws of `rng` for the streams above are those of the earlier rounds)
+        process(chk, pool, "refl", refl_sweep_cases(), seen)
+        process(chk, pool, "refl", [gen_refl_case(rng) for _ in range(chk.pick(150, 2500))], seen)
     chk.exhaustive = False
     chk.extra["exhaustive_parts"] = ["every bound + k*span, |k| <= 100, of the three declared intervals",
                                      "every permutation of <= 5 modes",
